@@ -136,6 +136,13 @@ def _template(g, vars_, dataset, insert):
     if dataset and g.chance(0.5):
         gt = V("g") if "g" in vars_ and g.chance(0.6) else g.pick(G)
         tpl["graphs"].append([gt, [tri() for _ in range(g.randint(1, 2))]])
+        if g.chance(0.4):
+            # several GRAPH blocks; the name of an earlier one may be unbound or a literal for some solutions (that block is
+            # skipped for them, the later ones are not), or the same name may come twice
+            early = g.choice([V("unbound"), V(g.choice(vars_)) if vars_ else V("unbound"), g.pick(G), gt])
+            tpl["graphs"].insert(0, [early, [tri()]])
+            if g.chance(0.3):
+                tpl["graphs"].append([g.pick(G), [tri()]])
     if not tpl["triples"] and not tpl["graphs"]:
         tpl["triples"].append(tri())
     return tpl
@@ -489,8 +496,12 @@ def execute(trace, ctx):
         mm = iso.find_embedding(model_quads(), got, fixed=frozenset(pre_b), onto=True, forbidden_images=frozenset(pre_b))
         if mm:
             ren = lambda k: mm.get(k, k)  # noqa: E731
+            renamed = {}
             for gk in list(model):
-                model[gk] = {tuple(ren(x) for x in t) for t in model[gk]}
+                # (a graph may itself be named by a blank node the request created)
+                renamed.setdefault(ren(gk) if isinstance(gk, tuple) else gk, set()).update({tuple(ren(x) for x in t) for t in model[gk]})
+            model.clear()
+            model.update(renamed)
         ctx.log("request", f"{h} {[o['op'] for o in ops]} -> {len(got)} quads")
         ctx.state(_srt(model_quads()) if len(got) < 12 else len(got), h)
 
